@@ -79,6 +79,9 @@ func otherEnc(r *core.Rand, enc string) string {
 // only), duplicated, preceded by other encodings; content-type before, between or after them.
 func planFor(r *core.Rand, enc string) hdrPlan {
 	p := hdrPlan{ct: "application/grpc", rich: r.Bool(), noise: r.Chance(1, 3), ctDup: r.Chance(1, 12)}
+	if r.Chance(1, 6) {
+		p.ct = r.Pick("application/grpc+proto", "application/grpc+json", "application/grpc;charset=utf-8", "application/grpc+x")
+	}
 	switch k := r.Intn(10); {
 	case k < 4:
 		p.encs = []string{enc}
@@ -143,7 +146,7 @@ func smallStream(r *core.Rand, enc string) []byte {
 // first block of a direction, with compressed messages behind it (so the encoding chosen is
 // observable); a direction that only names its encoding after the other one announced gRPC; request
 // and response with their own encodings; Trailers-Only responses; content-type variants the
-// specification calls gRPC (+proto, +json, ;charset - finding F11d) and ones it does not.
+// specification calls gRPC (+proto, +json, ;charset) and ones it does not.
 func genHeaders(r *core.Rand, rounds int, emit func([]string)) {
 	ctx := hf{"content-type", "application/grpc"}
 	ge := func(v string) hf { return hf{"grpc-encoding", v} }
@@ -207,8 +210,7 @@ func genHeaders(r *core.Rand, rounds int, emit func([]string)) {
 			ops = append(ops[:at], append([]string{hdrLine("s", true, hs)}, ops[at:]...)...)
 			emit(ops)
 		}
-		// content-type variants. gRPC by the specification, not by the code (finding F11d; reported in the
-		// cases carrying the marker, counted in the others) ...
+		// content-type variants: gRPC with a +subtype or a ;parameter (F11d, fixed by 1b6fe6f) ...
 		for i, ct := range []string{"application/grpc+proto", "application/grpc+json", "application/grpc;charset=utf-8", "application/grpc+", "application/grpc;"} {
 			enc := r.Pick(encs...)
 			dir := r.Pick("c", "s")
@@ -216,7 +218,8 @@ func genHeaders(r *core.Rand, rounds int, emit func([]string)) {
 			p := planFor(r, enc)
 			p.ct, p.ctDup = ct, false
 			core.Count("headers:grpc-subtype")
-			emit(buildCase(r, (round+i)%2 == 0, dirSpec{dir: dir, enc: enc, hdrs: p.fields(r, dir), frames: randomCuts(r, stream), eos: pickEOS(r, len(stream))}))
+			_ = i
+			emit(buildCase(r, false, dirSpec{dir: dir, enc: enc, hdrs: p.fields(r, dir), frames: randomCuts(r, stream), eos: pickEOS(r, len(stream))}))
 		}
 		// ... and lookalikes that are not gRPC by either reading: forwarded untouched
 		for _, ct := range []string{"application/grpc-web", "application/grpc-web+proto", "application/grpcx", "application/grp", "Application/grpc", "application/grpc ", " application/grpc", "application/GRPC", "application/grpc\t", "application/json"} {
@@ -282,22 +285,19 @@ func genEmptyFrames(r *core.Rand, maxN int, compressed int, emit func([]string))
 	}
 }
 
-// genArith: the 32-bit arithmetic of the length prefix around its boundaries (values no DATA frame
-// can reach: a buffer of 2^32 bytes, a payload of 2^32 bytes).
+// genArith: the 32-bit arithmetic of the emitter's length prefix around its boundaries (values no
+// DATA frame can reach: a payload of 2^32 bytes).
 func genArith(r *core.Rand, emit func([]string)) {
 	pts := []int64{0, 1, 4, 5, 255, 256, 65535, 65536, 1<<24 - 1, 1 << 24, 1<<31 - 1, 1 << 31, 1<<32 - 2, 1<<32 - 1, 1 << 32, 1<<32 + 1, 1<<32 + 5, 1<<32 + 255, 1<<33 - 1, 1 << 33, 1<<40 + 7}
 	var ops []string
 	for _, n := range pts {
 		ops = append(ops, fmt.Sprintf("pfx %d", n))
-		for _, l := range []int64{0, 1, 5, 1<<24 - 1, 1<<32 - 1, n % (1 << 32), (n + 1) % (1 << 32)} {
-			ops = append(ops, fmt.Sprintf("u32lt %d %d", n, l))
-		}
 	}
 	emit(ops)
 	ops = nil
 	for i := 0; i < 40; i++ {
 		n := int64(r.Intn(1<<30))<<3 + int64(r.Intn(8))
-		ops = append(ops, fmt.Sprintf("pfx %d", n), fmt.Sprintf("u32lt %d %d", n, r.Intn(1<<31)*2+r.Intn(2)))
+		ops = append(ops, fmt.Sprintf("pfx %d", n))
 	}
 	emit(ops)
 }
